@@ -514,6 +514,28 @@ func checkB32(hrp string, data []byte, m bool) {
 			return
 		}
 	}
+	// property predicate: Encode produces the BIP173/350 string exactly when the arguments are encodable
+	want := ""
+	encodable := len(hrp) >= 1 && len(hrp)+7+len(data) <= 90
+	for i := 0; i < len(hrp); i++ {
+		if hrp[i] < 33 || hrp[i] > 126 || (hrp[i] >= 'A' && hrp[i] <= 'Z') {
+			encodable = false
+		}
+	}
+	var d5 []int
+	for _, d := range data {
+		if d > 31 {
+			encodable = false
+		}
+		d5 = append(d5, int(d&31))
+	}
+	if encodable {
+		want = encodeRaw(hrp, d5, m)
+	}
+	if s != want {
+		r.PropFail("b32enc-vs-bip173", fmt.Sprintf("bech32.Encode(%q,%x,%v) = %q, BIP173/350 reference gives %q", hrp, data, m, s, want), rep)
+		return
+	}
 	if il != mo {
 		r.TieFail("tie-b32enc", fmt.Sprintf("model/impl differ on bech32.Encode(%q,%x,%v)", hrp, data, m), rep)
 		return
@@ -533,9 +555,24 @@ func checkB32Dec(s string) {
 		il = fmt.Sprintf("ok %s %s %s", vlib.Hex([]byte(h)), vlib.Hex(d), ms)
 	}
 	mo := o.MustAsk("b32dec " + vlib.Hex([]byte(s)))
+	// property predicate on the real code: accepted iff BIP173/350 says valid, with the same (hrp, data, variant)
+	rl := "none"
+	if ok, rh, rd, rm := refB32Decode(s); ok {
+		ms := "0"
+		if rm {
+			ms = "1"
+		}
+		rl = fmt.Sprintf("ok %s %s %s", vlib.Hex([]byte(rh)), vlib.Hex(rd), ms)
+		r.Hit("b32dec-valid")
+	}
+	if il != rl {
+		r.PropFail("b32dec-vs-bip173", fmt.Sprintf("bech32.Decode(%q) = %q but BIP173/350 reference says %q", s, il, rl),
+			map[string]interface{}{"op": "b32dec", "string": s, "string_hex": vlib.Hex([]byte(s)), "impl": il, "model": mo, "ref": rl})
+		return
+	}
 	if il != mo {
 		r.TieFail("tie-b32dec", fmt.Sprintf("model/impl differ on bech32.Decode(%q): impl=%q model=%q", s, il, mo),
-			map[string]interface{}{"op": "b32dec", "string": s, "impl": il, "model": mo})
+			map[string]interface{}{"op": "b32dec", "string": s, "string_hex": vlib.Hex([]byte(s)), "impl": il, "model": mo})
 		return
 	}
 	r.TieOK()
@@ -795,6 +832,15 @@ func main() {
 			checkB32Dec(s)
 		}
 	}
+	boundaryB32(g)
+	b58Lengths(g)
+	hrpConfusion(g)
+	for _, s := range valid {
+		if len(s) > 3 && (s[:3] == "bc1" || s[:3] == "tb1") && g.Chance(1, 3) {
+			checkSegDec(s[:2], s)
+			checkSegDec(map[string]string{"bc": "tb", "tb": "bc"}[s[:2]], s)
+		}
+	}
 	// 7. scripts -> addresses
 	for i := 0; i < r.N(1500, 50000); i++ {
 		var scr []byte
@@ -867,8 +913,14 @@ func replay(path string) {
 	case "b32enc":
 		m, _ := doc.Replay["m"].(bool)
 		checkB32(str("hrp"), vlib.UnHex(str("data")), m)
+	case "segdec":
+		checkSegDec(str("hrp"), string(vlib.UnHex(str("string_hex"))))
 	case "b32dec":
-		checkB32Dec(str("string"))
+		if h := str("string_hex"); h != "" {
+			checkB32Dec(string(vlib.UnHex(h)))
+		} else {
+			checkB32Dec(str("string"))
+		}
 	default:
 		fmt.Println("replay: nothing to re-run for this file (proof-level violation); see its 'broken' field")
 	}
